@@ -256,24 +256,39 @@ def end_to_end(ctx):
                     ns.put_file(e.CLOUD_ROOT + '/%s/.%s.tar.gpg' % (lg, lb), b'partial upload')
                     stats['temporary_leftovers'] = stats.get('temporary_leftovers', 0) + 1
                 if stray:
-                    # an unexpected object inside the old cloud group: the listing is not clean, nothing may be deleted
-                    ns.put_file(e.CLOUD_ROOT + '/1999.01.01/README.txt', b'not a backup')
-                    # ... and a newer cloud group that lists cleanly after it
+                    # an unexpected object in the cloud: the listing is not clean, nothing may be deleted.  One kind after the
+                    # other: a file inside the old cloud group, an empty directory that is no group in the root, a file in the root
                     ns.mkdir(e.CLOUD_ROOT + '/1999.06.01')
                     ns.put_file(e.CLOUD_ROOT + '/1999.06.01/1999.06.01-00:00:00.tar.gpg', b'another old cloud backup')
+                    uc.emu.pe.save_namespace(e.stage.dir, ns)
+                    e.stage.emu.reload()
+                    for skind, spath in (('file-in-group', '/1999.01.01/README.txt'), ('dir-in-root', '/' + ['old', 'lost+found', '1999.01.01.bak'][(idx + page) % 3]),
+                                         ('file-in-root', '/notes.txt')):
+                        ns = e.stage.emu.namespace(prov)
+                        if skind == 'dir-in-root':
+                            ns.mkdir(e.CLOUD_ROOT + spath)
+                        else:
+                            ns.put_file(e.CLOUD_ROOT + spath, b'not a backup')
+                        uc.emu.pe.save_namespace(e.stage.dir, ns)
+                        e.stage.emu.reload()
+                        o1 = e.upload()
+                        case = {'provider': prov, 'page_size': page, 'stray_cloud_entry': skind}
+                        stats['runs'] += 1
+                        stats['stray'] = stats.get('stray', 0) + 1
+                        if not any('unexpected' in x for x in o1['run'].errors()):
+                            ctx.violation('property', 'an unexpected object in the cloud (%s) is not reported [%s]' % (skind, prov), {'case': case})
+                        if not any(k.startswith('1999.01.01/1999.01.01-') for k in o1['cloud']) or not any(k.startswith('1999.06.01/') for k in o1['cloud']):
+                            ctx.violation('property', 'the cloud group 1999.01.01 or 1999.06.01 was deleted although the cloud listing is not clean (unexpected object: %s) [%s, page size %d]'
+                                          % (skind, prov, page), {'case': case})
+                        ns = e.stage.emu.namespace(prov)
+                        ns.remove(e.CLOUD_ROOT + spath)
+                        uc.emu.pe.save_namespace(e.stage.dir, ns)
+                        e.stage.emu.reload()
+                    continue
                 uc.emu.pe.save_namespace(e.stage.dir, ns)
                 e.stage.emu.reload()
                 o1 = e.upload()
                 case = {'provider': prov, 'page_size': page, 'stray_cloud_entry': stray}
-                if stray:
-                    stats['runs'] += 1
-                    stats['stray'] = stats.get('stray', 0) + 1
-                    if not any('unexpected' in x for x in o1['run'].errors()):
-                        ctx.violation('property', 'an unexpected object in a cloud group is not reported [%s]' % prov, {'case': case})
-                    if not any(k.startswith('1999.01.01/1999.01.01-') for k in o1['cloud']) or not any(k.startswith('1999.06.01/') for k in o1['cloud']):
-                        ctx.violation('property', 'the cloud group 1999.01.01 or 1999.06.01 was deleted although the cloud listing reported an error (unexpected object in it) [%s, page size %d]'
-                                      % (prov, page), {'case': case})
-                    continue
                 stats['runs'] += 1
                 if o1['run'].errors():
                     ctx.violation('property', 'vsb upload reports errors without any fault [%s, page size %d]: %s' % (prov, page, o1['run'].errors()[:2]), {'case': case})
